@@ -214,6 +214,7 @@ func runWorker(specFile string) int {
 			MaxPaths:    maxPaths,
 			MaxSteps:    ts.MaxSteps,
 			MapOrder:    h.MapOrder,
+			Race:        h.Race,
 			SchedBudget: h.Sched,
 			Witnesses:   true,
 			Prefixes:    spec.Prefixes,
@@ -840,7 +841,9 @@ func finish(p *propertySpec, tier string, seed int64, results []*harnessResult, 
 		Isolate    bool              `json:"isolate,omitempty"` // run in a process of its own (package-level state)
 	}
 	var ws []witness
+	i2w := map[int]int{}
 	for i, c := range allCex {
+		i2w[i] = len(ws)
 		ws = append(ws, witness{ID: fmt.Sprintf("cex%d", i), Harness: c.Harness, Case: c.Case, Assignment: c.Cex.Assignment})
 		if c.Cex.Kind == "emit" {
 			ws[len(ws)-1].Isolate = true
@@ -919,6 +922,16 @@ func finish(p *propertySpec, tier string, seed int64, results []*harnessResult, 
 				case "deadlock", "budget":
 					if r.Panic != "" || r.Timeout {
 						reproduced[i] = true
+					}
+				case "race":
+					// A data race is a property of the execution under the memory model; the ordinary
+					// replay cannot show it. It is confirmed with the Go race detector instead.
+					ok, why := confirmRace(p, pkgOf[c.Harness], ws[i2w[i]], work, c.Cex.Msg)
+					if ok {
+						reproduced[i] = true
+					} else {
+						addInc("race %s not confirmed by the Go race detector: %s", c.signature(), why)
+						continue
 					}
 				case "emit":
 					// a pair of witnesses: reproduced when the two native runs also emit different values
